@@ -325,6 +325,8 @@ def rule_object_list(ctx: Ctx) -> None:
 
 
 def run(ctx: Ctx) -> None:
+    from rules import generic as _G
+    ctx.run(_G.rule_arity, ("perception_eval.common.dataset", "perception_eval.common.geometry"), "R-ARITY", 5)
     ctx.run(rule_now_frame)
     ctx.run(rule_interpolated)
     ctx.run(rule_formulas)
